@@ -111,9 +111,9 @@ impl<T: ProgProperty> PP<T> {
     /// Step limit for the canonical run. Programs that need the full limit are
     /// expensive (and rejected programs cost the whole limit), so only one
     /// program in four - chosen by a hash of its text - gets it.
-    fn step_limit(&self, program: &str) -> u64 {
+    fn step_limit(&self, program: &str, family: &str) -> u64 {
         let full = self.0.max_steps();
-        if crate::engine::fnv(program) % 4 == 0 {
+        if crate::engine::fnv(program) % 4 == 0 || family == "wide" || family == "bigconst" {
             full
         } else {
             (full / 15).max(1000)
@@ -123,7 +123,7 @@ impl<T: ProgProperty> PP<T> {
         if !refmodel::balanced(&c.program) {
             return Outcome::Skip("unbalanced");
         }
-        let r = refmodel::run(&c.program, &c.input, c.bits, self.step_limit(&c.program));
+        let r = refmodel::run(&c.program, &c.input, c.bits, self.step_limit(&c.program, &c.family));
         if let Err(why) = self.0.admit(&r) {
             stats.class(&format!("skipped:{}:{:?}", c.family, r.fate));
             return Outcome::Skip(why);
@@ -187,7 +187,7 @@ impl<T: ProgProperty> Property for PP<T> {
     }
     fn concretize(&self, g: &ProgGen) -> ProgCase {
         let program = g.0.render();
-        let r = refmodel::run(&program, &g.1, g.2, self.step_limit(&program));
+        let r = refmodel::run(&program, &g.1, g.2, self.step_limit(&program, g.0.family()));
         let cfgs = if self.0.admit(&r).is_ok() { self.0.make_cfgs(&g.3, &program, &g.1, g.2, &r) } else { vec![] };
         ProgCase { program, input: g.1.clone(), bits: g.2, cfgs, family: g.0.family().to_string() }
     }
@@ -229,7 +229,7 @@ impl<T: ProgProperty> Property for PP<T> {
         });
         c.input = input;
         // smaller width / lower level if the failure survives
-        if !slow {
+        if !slow && !c.cfgs.is_empty() {
             for bits in [8u32, 16, 32] {
                 if bits < c.bits {
                     let cc = ProgCase { bits, ..c.clone() };
